@@ -231,5 +231,5 @@ func TestVerifC11(t *testing.T) {
 			c11L.close()
 		}
 	}()
-	vfutil.Run(t, vfutil.Spec[c11Case]{ID: "C11", Gen: genC11, Run: runC11})
+	vfutil.Run(t, vfutil.Spec[c11Case]{ID: "C11", Gen: genC11, Run: runC11, Journal: true})
 }
